@@ -452,7 +452,7 @@ class Component(CaselessDict):
                     comps.append(component)
                 else:
                     stack[-1].add_component(component)
-                if vals == 'VTIMEZONE' and 'TZID' in component:
+                if vals.upper() == 'VTIMEZONE' and 'TZID' in component:
                     tzp.cache_timezone_component(component)
             # we are adding properties to the current top of the stack
             else:
@@ -468,13 +468,13 @@ class Component(CaselessDict):
                 datetime_names = ('DTSTART', 'DTEND', 'RECURRENCE-ID', 'DUE',
                                   'RDATE', 'EXDATE')
                 try:
-                    if name == 'FREEBUSY':
+                    if uname == 'FREEBUSY':
                         vals = vals.split(',')
                         if 'TZID' in params:
                             parsed_components = [factory(factory.from_ical(val, params['TZID'])) for val in vals]
                         else:
                             parsed_components = [factory(factory.from_ical(val)) for val in vals]
-                    elif name in datetime_names and 'TZID' in params:
+                    elif uname in datetime_names and 'TZID' in params:
                         parsed_components = [factory(factory.from_ical(vals, params['TZID']))]
                     else:
                         parsed_components = [factory(factory.from_ical(vals))]
